@@ -153,4 +153,37 @@ def runSplitBareOp (patched : Bool) (w : World) (r : SplitRunSpec) (c : Nat) (rc
     if r.leak then (⟨d.fs, w.leaked ++ d.chains⟩, d)
     else (⟨finalizeAll d.fs d.chains, w.leaked⟩, d)
 
+/-! ## `_contains_cache` over nested containers (split.py:74-85)
+
+The member of a Split may hold its Cache at any depth: in nested Sequences (also the `_seq` of a `RunIf`, and a
+tuple member, which `Split.__init__` turns into a Sequence) and in the members of nested Splits. -/
+
+/-- the container tree of a Split member -/
+inductive CTree where
+  /-- an element with `is_cache` -/
+  | cache
+  /-- any other element -/
+  | leaf
+  /-- an object with `_seq`: a `LenaSequence` (a tuple member becomes one), a `RunIf` -/
+  | seq (els : List CTree)
+  /-- a `LenaSplit` with its `_seqs` -/
+  | split (seqs : List CTree)
+  deriving Repr
+
+mutual
+/-- `_contains_cache(seq)`: `is_cache`, or recursively through `LenaSplit._seqs` and `_seq` -/
+def containsCache : CTree → Bool
+  | .cache => true
+  | .leaf => false
+  | .seq els => anyCache els
+  | .split seqs => anyCache seqs
+def anyCache : List CTree → Bool
+  | [] => false
+  | t :: r => containsCache t || anyCache r
+end
+
+/-- `self._bufsize` after `Split.__init__` (split.py:252-260) for members of type sequence given as trees -/
+def effBufsizeTree (bufsize : Option Nat) (members : List CTree) : Option Nat :=
+  if bufsize.isSome && anyCache members then none else bufsize
+
 end Lena.C18
